@@ -40,7 +40,7 @@ def run(exe, script, timeout=60):
 
 
 def extract(exe):
-    evs = run(exe, "init\nX log\nY log\nB 0 0 0\nB 0 0 0\nY exit\nB 0 0 0\nX stop\nB 0 0 0\nend\n")
+    evs = run(exe, "init\nX log\nY log\nB 0 0 0\nB 0 0 0\nY exit\nB 0 0 0\nX flushcall\nB 0 0 0\nB 0 0 0\nX flushret\nX stop\nB 0 0 0\nend\n")
     k = {}
     for e in evs:
         if e["e"] != "acc":
@@ -51,6 +51,10 @@ def extract(exe):
             k.setdefault("MoStop", e["mo"])
         elif e["obj"] == "R" and e["op"] == "load" and e["t"] == 1:
             k.setdefault("MoLoop", e["mo"])
+        elif e["obj"] == "FL" and e["op"] in ("store", "rmw") and e["t"] == 1:
+            k.setdefault("MoFlushStore", e["mo"])
+        elif e["obj"] == "FL" and e["op"] == "load" and e["t"] == 0:
+            k.setdefault("MoFlushLoad", e["mo"])
         elif e["obj"] == "V" and e["op"] in ("store", "rmw") and e["t"] == 2:
             k.setdefault("MoInv", e["mo"])
         elif e["obj"] == "V" and e["op"] == "load" and e["t"] == 1:
@@ -58,15 +62,20 @@ def extract(exe):
         elif e["obj"] in ("W", "WY") and e["op"] == "load" and e["t"] == 1:
             # the weakest order among the backend's loads of the writer position (prepare_read, empty)
             k["MoRead"] = "rlx" if (e["mo"] == "rlx" or k.get("MoRead") == "rlx") else e["mo"]
-    if len(k) != 6 or not any(e["e"] == "stopped" for e in evs):
+    if len(k) != 8 or not any(e["e"] == "stopped" for e in evs):
         raise vlib.Infra(f"could not observe the atomic accesses of the stop protocol: {k}")
     return k
 
 
-def cfg_text(k, recs, export, maxy=0):
-    return ("SPECIFICATION Spec\nCONSTANTS MaxRecs = %d\n MaxY = %d\n MoInv = \"%s\"\n MoIsValid = \"%s\"\n MoCommit = \"%s\"\n MoStop = \"%s\"\n MoLoop = \"%s\"\n MoRead = \"%s\"\n"
-            " Export = %s\nINVARIANTS NoLoss TypeOK\nVIEW StateView\n%sCHECK_DEADLOCK FALSE\n"
-            % (recs, maxy, k["MoInv"], k["MoIsValid"], k["MoCommit"], k["MoStop"], k["MoLoop"], k["MoRead"], "TRUE" if export else "FALSE",
+def mine(prop, why):
+    """which property a contract rejection belongs to: the flush clauses are C06's, everything else C07's"""
+    return (prop == "C06") == why.startswith("flush_log()")
+
+
+def cfg_text(k, recs, export, maxy=0, maxf=0, inv="NoLoss FlushOK"):
+    return ("SPECIFICATION Spec\nCONSTANTS MaxRecs = %d\n MaxY = %d\n MaxFlush = %d\n MoFlushStore = \"%s\"\n MoFlushLoad = \"%s\"\n MoInv = \"%s\"\n MoIsValid = \"%s\"\n MoCommit = \"%s\"\n MoStop = \"%s\"\n MoLoop = \"%s\"\n MoRead = \"%s\"\n"
+            " Export = %s\nINVARIANTS %s TypeOK\nVIEW StateView\n%sCHECK_DEADLOCK FALSE\n"
+            % (recs, maxy, maxf, k["MoFlushStore"], k["MoFlushLoad"], k["MoInv"], k["MoIsValid"], k["MoCommit"], k["MoStop"], k["MoLoop"], k["MoRead"], "TRUE" if export else "FALSE", inv,
                "ACTION_CONSTRAINT ExportA\n" if export else ""))
 
 
@@ -79,6 +88,8 @@ def script_of(beh):
             L.append("X stop")
         elif h["a"] == "iter":
             L.append(f"B {h['arg'][0]} {h['arg'][1]} {h['arg'][2]}")
+        elif h["a"] in ("flushcall", "flushret"):
+            L.append("X " + h["a"])
         elif h["a"] == "exit":
             L.append("Y exit")
         elif h["a"] == "join":
@@ -92,7 +103,7 @@ def compare(beh, evs):
         return "harness crashed or hung"
     if evs and evs[-1].get("badchoice"):
         return "a load value chosen by the model is not allowed by the harness' memory model"
-    steps = [e for e in evs if e["e"] in ("committed", "ycommitted", "yexited", "joined", "stopreq", "bstep")]
+    steps = [e for e in evs if e["e"] in ("committed", "ycommitted", "yexited", "joined", "stopreq", "bstep", "flushcall", "flushed")]
     if len(steps) != len(beh):
         return f"harness ran {len(steps)} of {len(beh)} steps"
     # the loads of each B iteration
@@ -165,9 +176,14 @@ def run_for(ck):
         ck.drifted(f"stop protocol: constant extraction failed: {ex}")
         return
     ck.extra["stop_protocol_memory_orders_from_code"] = k
-    for recs, maxy in ([(2, 0), (1, 1)] if quick else [(2, 0), (4, 0), (1, 1), (2, 1), (1, 2), (2, 2)]):
-        label = f"stop-{recs}-{maxy}"
-        cfg = vlib.write_cfg(vlib.BUILD / "cfg" / f"StopRA_{label}.cfg", cfg_text(k, recs, True, maxy))
+    configs = ([(2, 0, 0), (1, 1, 0), (2, 0, 1)] if quick else
+               [(2, 0, 0), (4, 0, 0), (1, 1, 0), (2, 1, 0), (1, 2, 0), (2, 2, 0), (2, 0, 1), (2, 0, 2), (3, 0, 1), (1, 1, 1)])
+    if ck.prop == "C06":
+        configs = [c for c in configs if c[2] > 0]
+    for recs, maxy, maxf in configs:
+        label = f"stop-{recs}-{maxy}-{maxf}"
+        cfg = vlib.write_cfg(vlib.BUILD / "cfg" / f"StopRA_{ck.prop}_{label}.cfg",
+                             cfg_text(k, recs, True, maxy, maxf, "FlushOK" if ck.prop == "C06" else "NoLoss"))
         r = vlib.tlc("StopRA", cfg, timeout=900, coverage=quick)
         if r.error:
             raise vlib.Infra(r.error)
@@ -176,21 +192,21 @@ def run_for(ck):
             beh = r.trace[-1]["hist"]
             sc = script_of(beh)
             evs = run(exe, sc)
-            rej = validate(ck, [("cex", sc, evs)], label)
+            rej = [x for x in validate(ck, [("cex", sc, evs)], label) if mine(ck.prop, x[2])]
             ck.extra.setdefault("model_counterexamples", []).append({"config": label, "invariant": r.violated})
             if rej:
                 # confirm: the rejection repeats
-                rej2 = validate(ck, [("cex", sc, run(exe, sc))], label)
+                rej2 = [x for x in validate(ck, [("cex", sc, run(exe, sc))], label) if mine(ck.prop, x[2])]
                 if rej2:
                     key, sc, why, ev = rej[0]
                     ck.violation("stopra:" + "-".join(why.split())[:70],
-                                 f"backend stop with memory orders {k}: {why}; schedule {[(h['t'], h['a'], h['arg']) for h in beh]}; rejected event {json.dumps(ev)}",
+                                 f"backend handshake (stop / flush) with memory orders {k}: {why}; schedule {[(h['t'], h['a'], h['arg']) for h in beh]}; rejected event {json.dumps(ev)}",
                                  {"script": sc, "harness": "h_stop", "orders": k, "why": why})
                     continue
             ck.drifted(f"StopRA violates {r.violated} with the code's memory orders {k} but the real code passes on that schedule")
             continue
         if quick:
-            for a in ("XLog", "XStop"):
+            for a in ("XLog", "XStop") + (("XFlushCall",) if maxf else ()):
                 if not vlib.enabled(r, a):
                     raise vlib.Infra(f"vacuity: {a} never enabled in StopRA {label}")
         behs = vlib.behaviours(r)
@@ -199,7 +215,7 @@ def run_for(ck):
         if len(behs) > (150 if quick else 1500):
             import random
             rnd = random.Random(ck.seed)
-            fin = [b for b in behs if any(h["a"] == "stop" for h in b)]
+            fin = [b for b in behs if any(h["a"] in ("stop", "flushret") for h in b)]
             behs = rnd.sample(fin, min(len(fin), 150 if quick else 1500))
         with ThreadPoolExecutor(max_workers=max(2, vlib.NCPU // 2)) as ex:
             res = list(ex.map(lambda b: run(exe, script_of(b)), behs))
@@ -211,10 +227,10 @@ def run_for(ck):
                 if ndrift <= 3:
                     ck.drifted(f"StopRA {label}: {d}")
             execs.append((f"{label}-{i}", script_of(b), evs))
-            ck.case(("stopra", label, i), nontrivial=any(e["e"] == "stopped" for e in evs))
+            ck.case(("stopra", label, i), nontrivial=any(e["e"] in ("stopped", "flushed") for e in evs))
         rej = validate(ck, execs, label)
         ck.traces_validated += len(execs) - len(rej)
-        for key, sc, why, ev in rej[:3]:
+        for key, sc, why, ev in [x for x in rej if mine(ck.prop, x[2])][:3]:
             if validate(ck, [(key, sc, run(exe, sc))], label):
                 ck.violation("stopra:" + "-".join(why.split())[:70], f"{key}: {why}; rejected event {json.dumps(ev)}",
                              {"script": sc, "harness": "h_stop", "orders": k, "why": why})
